@@ -14,3 +14,12 @@ mod migrations;
 #[cfg(test)]
 #[cfg(not(target_arch = "wasm32"))]
 pub mod tests;
+
+/// Verification hooks (off unless built with `--cfg wwcore_verif`): re-exports of the
+/// private pure-math modules so an external harness can drive them directly.
+#[cfg(wwcore_verif)]
+pub mod verif_hooks {
+    pub use crate::error::ContractError;
+    pub use crate::helpers::*;
+    pub use crate::stableswap_math::curve::*;
+}
